@@ -35,8 +35,9 @@ def main():
                             label='%s(%s)[pre<=%d]#%d/%d' % (entry, ','.join(map(str, args)), p, i, k)))
     if t == 'quick':
         add('VerifC08Pipeline', (1, 0), 1, 4)
-        add('VerifC08Pipeline', (2, 0), 0, 4)
-        add('VerifC08KeyFirst', (2,), 0, 2)
+        add('VerifC08Pipeline', (2, 0), 0, 2)
+        add('VerifC08Pipeline', (3, 0), 0, 4)
+        add('VerifC08KeyFirst', (2,), 0, 1)
         add('VerifC08Cancel', (1,), 1, 3)
     else:
         add('VerifC08Pipeline', (1, 0), 2, 8)
